@@ -590,6 +590,16 @@ class Compiler:
                 raise CompilationError('subquery has too many columns', node.right)
             right = EvalConstantSubquery1D(right)
 
+        # The right operand must be a collection. Membership in a string is
+        # the substring test and requires a string as left operand. The type
+        # of untyped operands can be checked only at execution time.
+        if right.dtype is not object:
+            if not issubclass(right.dtype, collections.abc.Container) or (
+                    right.dtype is str and left.dtype is not str and left.dtype is not object):
+                raise CompilationError(
+                    f'operator "{type(node).__name__.lower()}('
+                    f'{types.name(left.dtype)}, {types.name(right.dtype)})" not supported', node)
+
         op = OPERATORS[type(node)][0]
         return op(left, right)
 
